@@ -13,14 +13,26 @@ import json
 import os
 import vlib
 
-MAX_FINDINGS = 40
+MAX_FINDINGS = 12
+WALK_STATES = {}   # (proto, path) -> states after each message, as computed by TLC (GenMiniProtocols)
 
 
 def _key(e):
     if e.get("ev") == "walk":
+        # keyed by the first message at which an agent leaves TLC's state sequence
+        want = WALK_STATES.get((e["proto"], tuple(e["path"])))
+        if want:
+            init = "(init)"
+            for i, m in enumerate(e["path"]):
+                seen = [x[i] for x in (e["cstates"], e["sstates"]) if i < len(x) and x[i] != ""]
+                short = i >= len(e["cstates"])
+                if short or any(x != want[i] for x in seen):
+                    return "walk/%s/%s/%s" % (e["proto"], want[i - 1] if i else init, m)
         return "walk/%s/%s" % (e["proto"], "-".join(e["path"]))
     if e.get("ev") == "end":
         return "coverage/end"
+    if e.get("ev") == "reach":
+        return "reach/%s/%s/%s" % (e["proto"], e["role"], e["want"])
     msgs = "+".join(s["msg"] for s in e["steps"])
     return "%s/%s/%s/%s" % (e["proto"], e["role"], e["state"], msgs)
 
@@ -29,9 +41,15 @@ def _describe(e):
     if e.get("ev") == "walk":
         return "real client/server pair driven along %s: client states %s, server states %s%s do not follow the table" % (
             e["path"], e["cstates"], e["sstates"], (" (stopped: %s)" % e["err"]) if e.get("err") else "")
+    if e.get("ev") == "reach":
+        return "%s %s: driving a real client/server pair along the valid path %s with the state-tracking methods did not reach %s (state %s, error %s)" % (
+            e["proto"], e["role"], e["path"], e["want"], e["state"], e["err"] or "none")
     if e.get("ev") == "end":
         return "the trace does not cover every required (protocol, role, state, direction, message) probe"
     steps = ", ".join("%s %s" % (s["dir"], s["msg"]) for s in e["steps"])
+    if e.get("peer") not in ("", e["state"]):
+        return "%s: after the valid path %s the %s agent is in %s but its real peer agent is in %s (seen while probing %s(%s))" % (
+            e["proto"], e["path"], e["role"], e["state"], e["peer"], e["via"], steps)
     return "%s %s in state %s: %s(%s) returned %s%s and left the agent in %s, which the state machine does not allow" % (
         e["proto"], e["role"], e["state"], e["via"], steps, e["res"], ("(%s)" % e["err"]) if e["err"] else "", e["after"])
 
@@ -74,10 +92,13 @@ def run(ctx):
     # M1/M2: the plan comes from TLC
     gcfg = ctx.path("GenMiniProtocols.cfg")
     src = open(os.path.join(vlib.SPEC, "proto", "GenMiniProtocols.cfg")).read()
-    open(gcfg, "w").write(src.replace("MaxWalk = 5", "MaxWalk = %d" % (8 if ctx.thorough else 5)))
+    open(gcfg, "w").write(src.replace("MaxWalk = 5", "MaxWalk = %d" % (10 if ctx.thorough else 5)))
     plan = ctx.path("plan.ndjson")
     n = ctx.tlc_gen("proto", "GenMiniProtocols", gcfg, plan, workers=1, count_states=True)
     rows = vlib.read_ndjson(plan)
+    for r in rows:
+        if r["kind"] == "walk":
+            WALK_STATES[(r["proto"], tuple(r["path"]))] = r["states"]
     ntriples = sum(1 for r in rows if r["kind"] == "triple")
     nwalks = n - ntriples
     ctx.sample({"tlc_probe": next(r for r in rows if r["kind"] == "triple" and r["path"])})
@@ -85,11 +106,9 @@ def run(ctx):
 
     # M3: real agents -> trace
     tr = ctx.path("trace.ndjson")
-    reps = 3 if ctx.thorough else 1
+    reps = 2 if ctx.thorough else 1
     ctx.run_bin(binary, ["agents-trace", "--plan", plan, "--out", tr, "--reps", reps])
     events = vlib.read_ndjson(tr)
-    unreached = [e for e in events if e["ev"] == "unreached"]
-    broken = [e for e in events if e["ev"] == "call" and e["res"] in ("plexer", "timeout")]
     calls = [e for e in events if e["ev"] == "call"]
     walks = [e for e in events if e["ev"] == "walk"]
     if not calls or len(walks) != nwalks * reps:
@@ -102,19 +121,10 @@ def run(ctx):
     ctx.sample({"impl_call": next(e for e in calls if e["res"] == "ok" and e["commit"] and e["path"])})
     ctx.sample({"impl_reject": next(e for e in calls if e["res"] == "reject" and e["path"])})
 
-    valid = [e for e in events if e["ev"] != "unreached" and e not in broken]
+    valid = events
     findings, total = _validate_all(ctx, valid, "impl")
     for k, ev, path, matched in findings:
         ctx.report(k, _describe(ev), payload={"event": ev, "event_index": matched + 1}, src_file=path)
-
-    # a state that cannot be set up, or a transport failure, is only explained by an agent defect already reported
-    if unreached or broken:
-        msg = "%d probes could not be set up, %d calls failed in the transport (first: %s)" % (
-            len(unreached), len(broken), json.dumps((unreached + broken)[0])[:300])
-        if findings:
-            ctx.notes.append(msg)
-        else:
-            raise vlib.ToolError(msg)
 
     # binding self-test on the accepted trace
     if not findings:
@@ -139,12 +149,12 @@ def run(ctx):
         for i, e in enumerate(valid):
             if e["ev"] == "call" and len(e["steps"]) == 1:
                 keys.setdefault((e["proto"], e["role"], e["state"], e["steps"][0]["dir"], e["steps"][0]["msg"]), []).append(i)
-        lone = next(v[0] for v in keys.values() if len(v) == 1)
-        c3 = [e for i, e in enumerate(valid) if i != lone]
+        lone = min(keys.values(), key=len)
+        c3 = [e for i, e in enumerate(valid) if i not in set(lone)]
         p3 = ctx.path("trace_dropped.ndjson")
         vlib.write_ndjson(p3, c3)
         ok3, m3, t3, f3 = ctx.tlc_trace("proto", "TraceAgent", "TraceAgent.cfg", p3, count=False)
-        ctx.selftest("drop the only probe of one (state, message) pair (event %d)" % (lone + 1),
+        ctx.selftest("drop every probe of one (state, message) pair (event %d)" % (lone[0] + 1),
                      (not ok3) and f3 is not None and f3.get("ev") == "end", "matched %d/%d" % (m3, t3))
 
     return ctx.finish(
@@ -152,5 +162,5 @@ def run(ctx):
              "9 original-stack protocols with a shortest path and every maximal valid message sequence <= %d; each is "
              "executed on real agents over in-process plexers through every public entry point; M3: every call and "
              "walk validated by TraceAgent (allowed iff agency + table; next state; rejection leaves the state), "
-             "coverage of all required probes enforced at the end of the trace" % (8 if ctx.thorough else 5),
+             "coverage of all required probes enforced at the end of the trace" % (10 if ctx.thorough else 5),
         exhaustive=True)
